@@ -254,6 +254,20 @@ def run(m: Model, r: Report, tier: str) -> None:
         raise AnalysisError(f"only {n_wc} wait_closed() sites in transport close() functions")
     from sa.uds_rules import reconnect_unsafe_rule
     reconnect_unsafe_rule(m, r, "R5")
+    # waiting for the ECU survives the time in which the peer does not accept connections yet: a reconnect attempt made from an exception handler of the
+    # wait loop is itself protected against ConnectionError (otherwise the first refused attempt ends wait_for_ecu with a raw ConnectionRefusedError)
+    wl = m.require_function("gallia.services.uds.ecu.ECU._wait_for_ecu_endless_loop")
+    n_rc = 0
+    for h in [h_ for t_ in ast.walk(wl.node) if isinstance(t_, ast.Try) for h_ in t_.handlers]:
+        for c_ in ast.walk(h):
+            if isinstance(c_, ast.Call) and ast.unparse(c_.func) in ("self.reconnect", "self.reconnect_unsafe"):
+                n_rc += 1
+                inner = [t2 for t2 in ast.walk(h) if isinstance(t2, ast.Try) and any(c_ is x for b_ in t2.body for x in ast.walk(b_)) and
+                         any(h2.type is None or any(k in ast.unparse(h2.type) for k in ("ConnectionError", "OSError", "Exception")) for h2 in t2.handlers)]
+                r.check(bool(inner), "R5", f"{wl.qualname}#reconnect-in-handler-guarded", "the reconnect attempt in the exception handler of the wait loop is not protected: while the peer "
+                        "still refuses connections it raises ConnectionRefusedError out of the loop, and wait_for_ecu gives up immediately instead of waiting for its timeout", loc=wl.loc)
+    if n_rc < 1:
+        raise AnalysisError(f"{wl.qualname}: reconnect call in the wait loop not found")
     ru = m.require_function(f"{CLIENT}.UDSClient.reconnect_unsafe")
     r.check(any(isinstance(n, ast.Assign) and ast.unparse(n.targets[0]) == "self.transport" and
                 ast.unparse(n.value).startswith("await self.transport.reconnect(") for n in ast.walk(ru.node)), "R5",
